@@ -35,6 +35,7 @@ pub open spec fn has_message(e: BaseToken) -> bool {
 	e == BaseToken::Assignment || e == BaseToken::BraceLeft || e == BaseToken::BraceRight || e == BaseToken::BracketLeft
 	|| e == BaseToken::BracketRight || e == BaseToken::Dot || e == BaseToken::ParenLeft || e == BaseToken::ParenRight
 	|| e == BaseToken::Pipe || e == BaseToken::Semicolon || e == BaseToken::StringLiteral || e == BaseToken::Identifier
+	|| e == BaseToken::Colon || e == BaseToken::Comma
 }
 pub open spec fn is_decl_start(t: BaseToken) -> bool {
 	t == BaseToken::Pub || t == BaseToken::Extern || t == BaseToken::Import || t == BaseToken::Const || t == BaseToken::Fn
@@ -115,4 +116,41 @@ proof fn lemma_clean_widen(ts: Seq<BaseToken>, e1: int, e2: int, a: int, b: int)
 	assert forall|j: int| a <= j < b implies #[trigger] tokv(ts, e2, j) != BaseToken::EndOfSource by {
 		assert(tokv(ts, e1, j) != BaseToken::EndOfSource);
 	}
+}
+
+// ---- top level `parse` ------------------------------------------------------------------------
+// number of declaration-starting tokens among ts[0 .. k)
+pub open spec fn cnt(ts: Seq<BaseToken>, k: int) -> int
+	decreases k
+{
+	if k <= 0 || k > ts.len() { 0 } else { cnt(ts, k - 1) + (if is_decl_start(ts[k - 1]) { 1int } else { 0int }) }
+}
+proof fn lemma_cnt_mono(ts: Seq<BaseToken>, a: int, b: int)
+	requires 0 <= a <= b <= ts.len()
+	ensures cnt(ts, a) <= cnt(ts, b), 0 <= cnt(ts, a) <= a
+	decreases b - a
+{
+	if a < b { lemma_cnt_mono(ts, a, b - 1); }
+	lemma_cnt_nonneg(ts, a);
+}
+proof fn lemma_cnt_nonneg(ts: Seq<BaseToken>, a: int)
+	requires 0 <= a <= ts.len()
+	ensures 0 <= cnt(ts, a) <= a
+	decreases a
+{
+	if a > 0 { lemma_cnt_nonneg(ts, a - 1); }
+}
+proof fn lemma_cnt_step(ts: Seq<BaseToken>, a: int, b: int)
+	requires 0 <= a < b <= ts.len(), is_decl_start(ts[a])
+	ensures cnt(ts, a) + 1 <= cnt(ts, b)
+{
+	lemma_cnt_mono(ts, a + 1, b);
+}
+// what slice_count(tokens, starts_declaration, ..) returns, in terms of cnt
+proof fn lemma_count_p_is_cnt(ts: Seq<BaseToken>, k: int)
+	requires 0 <= k <= ts.len()
+	ensures count_p(ts, |t: BaseToken| is_decl_start(t), k) == cnt(ts, k)
+	decreases k
+{
+	if k > 0 { lemma_count_p_is_cnt(ts, k - 1); }
 }
